@@ -211,6 +211,11 @@ func check(c cfg, r *run, outcomes map[string]struct{}) func(*vsched.Exec, vsche
 			} else {
 				// start-up = the ticker goroutine has read the clock and armed its first timer; an arbitrarily
 				// long preemption between those two statements is not something the property can bound
+				// a flush cannot be triggered at an instant before the ticker existed: the first boundary at or after
+				// the clock reading the ticker took at its start-up is the earliest one it can announce
+				if !r.tickerStart.IsZero() && t.Before(r.tickerStart) {
+					return "tick-before-start", fmt.Sprintf("first flush carries tick %v, which is before the ticker's start-up at %v (timer armed at %v, interval %v): the timer fired before the boundary and was labelled with the previous one", t.UnixNano(), r.tickerStart.UnixNano(), r.armedAt.UnixNano(), c.Interval)
+				}
 				if t.Sub(r.armedAt) > c.Interval || r.tickerStart.Sub(t) >= c.Interval {
 					return "first-tick-late", fmt.Sprintf("first flush tick %v; ticker read the clock at %v and armed its timer at %v (interval %v)", t.UnixNano(), r.tickerStart.UnixNano(), r.armedAt.UnixNano(), c.Interval)
 				}
